@@ -46,7 +46,7 @@ ASSUMPTIONS = ["gzip/zlib/brotli/zstd library decoders called directly are the r
 LEVEL_TEXT = ("randomised histories against reference decoders and a fresh-cache twin; finds history dependence only "
               "for cache states reachable within 16 steps over <=4 bodies")
 LEVEL_NOTE = "trusts the compression libraries' own decoders as reference"
-QUICK_N, THOROUGH_N = 240_000, 4_000_000
+QUICK_N, THOROUGH_N = 120_000, 4_000_000
 
 SUPPORTED = ("gzip", "deflate", "br", "zstd")
 CODINGS = ["gzip", "deflate", "br", "zstd", "identity", "GZip", "BR", "Zstd", "DEFLATE", "Identity", "none",
